@@ -64,6 +64,14 @@ CLAIMED["C11"] = dict(
          "a truncated element is skipped once the threshold is exceeded (threshold disabled: recorded finding).",
     note="Trusted: F4/F5 on the arbitrary oracle; F1-F6 on the ground-truth oracle; watchdog stubs turn non-termination into a verdict.",
     ref="DESIGN.md section 6 C11", technique=XH)
+CLAIMED["C08"] = dict(
+    text="(a) codec: the real BLOB code paths of driver, router and client over the tree wire with symbolic payload length (0..8/16, real base64), "
+         "unbounded symbolic format string and symbolic client policy, both directions, single-connection clients and the library's two-connection "
+         "client; (b) the real Buffer with message length, read size and threshold all symbolic (ground-truth oracle); (c) BLOB-mode buffer on "
+         "arbitrary text with an arbitrary parser never hangs nor delivers None.",
+    note="Payload contents are carried by the stdlib base64 codec (not repository code) and are concrete fillers; sizes are small with symbolic "
+         "order relations standing for the 1024/2048 boundaries; one recorded finding (server-side threshold destroys long fragmented messages).",
+    ref="DESIGN.md section 6 C08", technique=XH)
 NA_DEFAULT = "check not built yet in this round (no verdict claimed); see DESIGN.md section 6 for the plan"
 
 checks, na = [], []
